@@ -46,6 +46,11 @@ pub fn gt_idx(cs: &CallSet) -> i32 {
     }
 }
 
+/// PL, FT, AB follow GQ in the dictionary
+fn extra_idx(cs: &CallSet, k: i32) -> i32 {
+    gq_idx(cs) + 1 + k
+}
+
 fn gq_idx(cs: &CallSet) -> i32 {
     if wide_dictionary(cs) {
         IDX_GQ + 2 + WIDE_PAD
@@ -85,6 +90,9 @@ pub fn header_text(cs: &CallSet) -> String {
     h.push_str(&format!("##FORMAT=<ID=GT,Number=1,Type=String,Description=\"Genotype\"{}>\n", idx_attr(cs, gt_idx(cs))));
     h.push_str(&format!("##FORMAT=<ID=DP,Number=1,Type=Integer,Description=\"Read depth\"{}>\n", idx_attr(cs, IDX_DP)));
     h.push_str(&format!("##FORMAT=<ID=GQ,Number=1,Type=Integer,Description=\"Genotype quality\"{}>\n", idx_attr(cs, gq_idx(cs))));
+    h.push_str(&format!("##FORMAT=<ID=XL,Number=.,Type=Integer,Description=\"Phred-scaled likelihoods\"{}>\n", idx_attr(cs, extra_idx(cs, 0))));
+    h.push_str(&format!("##FORMAT=<ID=XF,Number=1,Type=String,Description=\"Sample filter\"{}>\n", idx_attr(cs, extra_idx(cs, 1))));
+    h.push_str(&format!("##FORMAT=<ID=XB,Number=1,Type=Float,Description=\"Allele balance\"{}>\n", idx_attr(cs, extra_idx(cs, 2))));
     h.push_str("#CHROM\tPOS\tID\tREF\tALT\tQUAL\tFILTER\tINFO\tFORMAT");
     for s in &cs.samples {
         h.push('\t');
@@ -217,6 +225,38 @@ pub fn record_bytes_with_gt_idx(cs: &CallSet, r: &Record, gt_idx: i32) -> Vec<u8
         typed_descriptor(1, 1, &mut indiv);
         for i in 0..n_sample {
             indiv.push((20 + (i as u64 * 7 + r.pos) % 70) as u8);
+        }
+    }
+
+    if r.info & 8 != 0 {
+        // three integers per sample; the third exceeds 127, so the whole field is an int16 vector
+        n_fmt += 1;
+        typed_int(extra_idx(cs, 0), &mut indiv);
+        typed_descriptor(3, 2, &mut indiv);
+        for i in 0..n_sample {
+            for v in r.pl_of(i) {
+                indiv.extend((v as i16).to_le_bytes());
+            }
+        }
+    }
+    if r.info & 16 != 0 {
+        // character vectors, NUL-padded to the longest value
+        n_fmt += 1;
+        typed_int(extra_idx(cs, 1), &mut indiv);
+        let width = (0..n_sample).map(|i| r.ft_of(i).len()).max().unwrap_or(1);
+        typed_descriptor(width, 7, &mut indiv);
+        for i in 0..n_sample {
+            let v = r.ft_of(i).as_bytes();
+            indiv.extend(v);
+            indiv.extend(std::iter::repeat(0u8).take(width - v.len()));
+        }
+    }
+    if r.info & 32 != 0 {
+        n_fmt += 1;
+        typed_int(extra_idx(cs, 2), &mut indiv);
+        typed_descriptor(1, 5, &mut indiv);
+        for i in 0..n_sample {
+            indiv.extend(r.ab_of(i).to_le_bytes());
         }
     }
 
